@@ -31,6 +31,8 @@ def upper1(c):
 LOWER = z3.Function("py_lower", StrS, StrS)   # whole-string lower(), axiomatised on use
 UPPER = z3.Function("py_upper", StrS, StrS)
 STRIP = z3.Function("py_strip", StrS, StrS)
+FIRSTFIELD = z3.Function("py_firstfield", StrS, StrS)
+LASTPIECE = z3.Function("py_lastpiece", StrS, StrS, StrS)
 WC = z3.Function("spec_write_continue_output", StrS, IntS, StrS, StrS)
 JOINPRE = z3.Function("py_joinpre", z3.ArraySort(IntS, StrS), IntS, StrS)
 TOINT = z3.Function("py_int_of_str", StrS, IntS)
@@ -132,6 +134,9 @@ class MethodsMixin(object):
         def m_split(ex, st, args, kw, node):
             return self.str_split(s, args, st, node)
 
+        def m_rfind(ex, st, args, kw, node):
+            raise OutOfSubset("rfind", node)
+
         table = dict(lstrip=m_lstrip, rstrip=m_rstrip, strip=m_strip, lower=m_lower, upper=m_upper,
                      isupper=m_isupper, islower=m_islower, startswith=m_startswith, endswith=m_endswith,
                      find=m_find, replace=m_replace, join=m_join, format=m_format, split=m_split)
@@ -231,9 +236,12 @@ class MethodsMixin(object):
             st.qf.append(QFact(z3.IntVal(0), n, lambda i, arr=arr, sep=sep: z3.Not(z3.Contains(z3.Select(arr, i), sep)), "split-nosep"))
             st.assume(z3.Implies(z3.Not(z3.Contains(s, sep)), z3.And(n == 1, z3.Select(arr, 0) == s)))
             self.assumptions.add("str.split(sep): pieces are non-overlapping, >= 1 piece, none contains sep, and a string without sep is its own single piece (other properties of split left abstract)")
+            st.assume(z3.Select(arr, n - 1) == LASTPIECE(s, sep))
         else:
             st.assume(n >= 0)
-            self.assumptions.add("str.split(): pieces abstract")
+            st.assume((n == 0) == ALLWS(s))
+            st.assume(z3.Implies(n > 0, z3.Select(arr, 0) == FIRSTFIELD(s)))
+            self.assumptions.add("str.split(): no fields iff the string is all whitespace; first field = FIRSTFIELD(s) (uninterpreted); other fields abstract")
         return st.alloc(HList("str", n, arr))
 
     def py_method(self, base, name, st, node):
@@ -250,6 +258,10 @@ class MethodsMixin(object):
     # ---------------------------------------------------------------- lists, dicts, objects
     def container_method(self, ref, cell, name, st, node):
         oid = ref.oid
+        if isinstance(cell, HOpaque):
+            if name in ("append", "extend"):
+                return VFun("opaque." + name, lambda ex, st, args, kw, node: VNone())
+            return None
         if isinstance(cell, (HList, HCList)):
             def m_append(ex, st, args, kw, node):
                 c = st.heap[oid]
@@ -268,6 +280,9 @@ class MethodsMixin(object):
             def m_extend(ex, st, args, kw, node):
                 c = st.heap[oid]
                 o = args[0]
+                if isinstance(o, VOpt):
+                    self.safety(st, "TypeError", z3.Not(o.isnone), node, "extend(None)")
+                    o = o.val
                 if isinstance(o, VTuple):
                     oc = HCList(o.items)
                 elif isinstance(o, VRef):
@@ -348,6 +363,11 @@ class MethodsMixin(object):
                     st.heap[out.oid] = HList(c.ek, c.n + 1, z3.Store(c.arr, c.n, s))
                 return VNone()
             return VFun("file.write", m_write)
+        if cell.cls == "file" and name == "readlines":
+            return VFun("file.readlines", lambda ex, st, args, kw, node: st.heap[ref.oid].f["lines"])
+        if cell.cls == "Tree" and name == "setdefault":
+            # abstract nested-dict navigation: a child node (identity abstracted)
+            return VFun("Tree.setdefault", lambda ex, st, args, kw, node: st.alloc(HObj("Tree", {})))
         key = (cell.cls, name)
         if key in self.method_contracts:
             return self.method_contracts[key](ref)
@@ -359,6 +379,9 @@ class MethodsMixin(object):
 
         def f_len(ex, st, args, kw, node):
             v = args[0]
+            if isinstance(v, VOpt):
+                self.safety(st, "TypeError", z3.Not(v.isnone), node, "len(None)")
+                v = v.val
             if isinstance(v, VStr):
                 return VInt(z3.Length(v.e))
             if isinstance(v, VTuple):
@@ -495,12 +518,15 @@ class MethodsMixin(object):
                         st2.guards = []
                         save = (self.obligs, self.trivial)
                         self.obligs = []
+                        was = self.in_contract
+                        self.in_contract = True
                         try:
                             cond = [self.truth(self.ev(c, st2), st2) for c in g.ifs]
                             r = self.truth(self.ev(arg.elt, st2), st2)
                         finally:
                             dropped = self.obligs
                             self.obligs, self.trivial = save
+                            self.in_contract = was
                         # safety conditions inside a quantified spec expression are folded into it
                         extra = [z3.Implies(z3.And(*o.hyps[len(st.pc):]) if o.hyps[len(st.pc):] else True, o.goal)
                                  for o in dropped if not isinstance(o.goal, V)]
@@ -571,7 +597,13 @@ class MethodsMixin(object):
             a = [self.ev(x, st) for x in node.args]
             return VStr(WC(a[0].e, a[1].e, a[2].e))
 
-        return dict(isint=sf_isint, isstr=sf_isstr, asstr=sf_asstr, WC=sf_wc, code=_sf_code(self), all=sf_all, old=sf_old, implies=sf_implies, iff=sf_iff, allws=sf_allws,
+        def sf_firstfield(node, st):
+            return VStr(FIRSTFIELD(self.ev(node.args[0], st).e))
+
+        def sf_lastpiece(node, st):
+            return VStr(LASTPIECE(self.ev(node.args[0], st).e, self.ev(node.args[1], st).e))
+
+        return dict(firstfield=sf_firstfield, lastpiece=sf_lastpiece, isint=sf_isint, isstr=sf_isstr, asstr=sf_asstr, WC=sf_wc, code=_sf_code(self), all=sf_all, old=sf_old, implies=sf_implies, iff=sf_iff, allws=sf_allws,
                     lstrip=sf_lstrip, rstrip=sf_rstrip)
 
 
